@@ -319,12 +319,11 @@ def flag_changes(before, after):
 
 FLAG_WITNESS_HEAD = [
     'def W(v):',
-    '  o = [v] + ([v.sym_init_args] if isinstance(v, pg.Object) else [])',
-    '  for c in v.sym_values():',
-    '    if isinstance(c, pg.Symbolic): o += W(c)',
+    '  o = [v] + [v.sym_init_args] * isinstance(v, pg.Object)',
+    '  for c in v.sym_values(): o += W(c) if isinstance(c, pg.Symbolic) else []',
     '  return o',
     'F = lambda v: (v.is_sealed, v.accessor_writable)',
-    'keep = W(root); b = [F(v) for v in keep]']
+    'keep = W(root); b = [*map(F, keep)]']
 
 
 def flag_witness(tree, setup_lines, sealed_stack, acc_stack, addr, src):
@@ -332,9 +331,9 @@ def flag_witness(tree, setup_lines, sealed_stack, acc_stack, addr, src):
   w += [f'n = {node_expr(addr)}'] + FLAG_WITNESS_HEAD + ['try:']
   sc, ind = scope_src(sealed_stack, acc_stack, '  ')
   w += sc + [f'{ind}{src}', 'except Exception: pass',
-             'live = set(map(id, W(root)))',
+             'live = [*map(id, W(root))]',
              'assert all(F(v) == f for v, f in zip(keep, b) if id(v) in live)'
-             ", 'protection flag of a surviving node changed'"]
+             ", 'protection flag changed'"]
   return '\n'.join(w)
 
 
@@ -1871,7 +1870,7 @@ def drv_protection_persists(tier, seed):
         # seeded sequences of two permitted operations at the same node
         pool_ops = [o for o in _legal_ops_at(node, k, lab, in_scope)
                     if '+=' not in o[1] and '*=' not in o[1]
-                    and '|=' not in o[1] and len(o[1]) <= 64]
+                    and '|=' not in o[1] and len(o[1]) <= 48]
         for _ in range(1 if quick else 12):
           a, b = r.choice(pool_ops), r.choice(pool_ops)
           prefixes.append((p0, 'sequence-of-2-permitted-ops',
